@@ -227,6 +227,10 @@ def _families(rng):
                                                     cirq.CircuitOperation(cirq.FrozenCircuit(cirq.X(q[0]), cirq.measure(q[0], key="m")), use_repetition_ids=False, repeat_until=cirq.KeyCondition(cirq.MeasurementKey("m"))),
                                                     cirq.CircuitOperation(sub, parent_path=("a", "b"), extern_keys=frozenset({cirq.MeasurementKey("e")}))]),
         ("circuit with a repeated sub-circuit using ids", cirq.Circuit(cirq.CircuitOperation(sub, repetitions=2, use_repetition_ids=True), cirq.H(q[1]))),
+        ("tagged operations incl. empty and nested tag wrappers", [cirq.TaggedOperation(cirq.X(q[0])), cirq.TaggedOperation(cirq.X(q[0]).with_tags("a"), "b"), cirq.X(q[0]).with_tags("a", "b"),
+                                                                   cirq.TaggedOperation(cirq.TaggedOperation(cirq.CZ(q[0], q[1])), cirq.VirtualTag()),
+                                                                   cirq.Circuit(cirq.TaggedOperation(cirq.H(q[1])), cirq.TaggedOperation(cirq.X(q[0]).with_tags("a"), "b")),
+                                                                   cirq.Moment(cirq.TaggedOperation(cirq.measure(q[0], key="m")), cirq.TaggedOperation(cirq.Z(q[1]).with_tags(1), 2.5))]),
         ("sympy expressions", [cirq.X(q[0]) ** (a + 2 * b), cirq.rz(a * sympy.pi)(q[1]), cirq.Z(q[0]) ** (a ** 2 - b / 3), cirq.X(q[2]).with_classical_controls(sympy.Eq(a, 1))]),
         ("numpy payloads", [cirq.MatrixGate(np.array([[0, 1j], [-1j, 0]])), cirq.KrausChannel([np.eye(2) * np.sqrt(0.5), np.array([[0, 1], [1, 0]]) * np.sqrt(0.5)], key="k"),
                             cirq.ResultDict(params=cirq.ParamResolver({"a": 0.5}), measurements={"m": np.array([[0, 1], [1, 1]], dtype=np.uint8)}),
